@@ -49,7 +49,7 @@ var resources = []resource{
 var varyFields = []string{"X-A", "X-B", "Content-Language", "User-Agent", "Authorization", "If-Unmodified-Since"}
 
 var fieldValues = map[string][]string{
-	"X-A":                 {"1", "2", "1X-B2", "", "a, b", "b, a", "1 ", "é"},
+	"X-A":                 {"1", "2", "1X-B2", "", "a, b", "b, a", "1 ", "é", "caf\xe9", "caf\xe8"},
 	"X-B":                 {"2", "1", "", "x"},
 	"Content-Language":    {"en, fr", "fr,en", "fr ,  en", "en", "EN", "en, fr, en"},
 	"User-Agent":          {"Go-Client/1", "go-client/1", "GO-CLIENT/1", "other"},
